@@ -87,7 +87,7 @@ MeshVerdict(e) ==
                    ELSE IF bp.is /\ bp.pen THEN <<P, "status_selfintersecting", <<e.kind, e.selfint, "degenerate">>>>
                    ELSE Ok     \* contact (or a degenerate crossing of bodies that are not boxes): either answer is accepted
              ELSE IF ~SameFaceSets(F, G) THEN <<(IF ~isOpen /\ ~isSelf THEN P ELSE "-"), "faces_changed", <<e.kind>>>>
-             ELSE IF ~isOpen /\ ~isSelf /\ ~Outward(V, G) THEN <<P, "not_outward", <<e.kind, IF Outward(V, F) THEN "input_outward" ELSE "input_mixed">>>>
+             ELSE IF ~isOpen /\ ~isSelf /\ Separated(V, F) /\ ~Outward(V, G) THEN <<P, "not_outward", <<e.kind, IF Outward(V, F) THEN "input_outward" ELSE "input_mixed">>>>
              ELSE IF e.field.has THEN
                 (IF isOpen \/ isDisc \/ isSelf THEN <<"machinery", "premise_closed", <<e.kind>>>> ELSE FieldVerdict(e, V, F))
              ELSE Ok
